@@ -142,7 +142,7 @@ def _dtype_kind(dt):
         if 'int' in name:
             return 'int', 0
         if name.startswith(('U', 'S', '<U', '|S')) or 'str' in name:
-            return 'str', ''
+            return 'int', 0          # strings held in arrays are abstract integer codes; 0 is the empty string
     return 'real', 0.0
 
 
@@ -926,6 +926,8 @@ def call_method(interp, st, fr, obj, name, args, kw):
                     return getattr(obj, name)(*args)
             except Exception:
                 pass
+            if name == 'format':
+                return Opaque('format', (obj, tuple(args)))     # the template and its arguments are kept
             return Opaque('str')
         raise Unsupported("str.%s" % name)
     if isinstance(obj, ObjRef) and st.heap[obj.addr].cls.startswith('<') and st.heap[obj.addr].cls != '<file>':
@@ -1052,6 +1054,19 @@ def strip_axioms():
     return [z3.ForAll([k], STRIP(STRIP(k)) == STRIP(k), patterns=[STRIP(STRIP(k))])]
 
 
+_FMT = {}
+
+
+def format_code(template, args):
+    """The (abstract, integer) code of the string template.format(*args) for integer arguments."""
+    key = (template, len(args))
+    if key not in _FMT:
+        import hashlib
+        nm = 'FMT[%s]' % hashlib.md5(template.encode()).hexdigest()[:8]
+        _FMT[key] = z3.Function(nm, *([z3.IntSort()] * len(args) + [z3.IntSort()]))
+    return Sc(_FMT[key](*[to_z3(a, 'int') for a in args]))
+
+
 @model('numpy.char.strip')
 def np_char_strip(interp, st, fr, args, kw):
     USED.add('numpy.char.strip')
@@ -1135,15 +1150,24 @@ def table_setitem(interp, st, t, key, val):
     cell = st.heap[t.addr]
     cols = dict(cell.attrs['@cols'])
     val = _arr(interp, st, val)
-    if is_array(val):
-        npm.same_dim(st, npm.shape_of(st, val)[0], cell.attrs['@n'])
+    inner = val.value if isinstance(val, Quantity) else val
+    n = cell.attrs['@n']
+    if is_array(inner):
+        if n is None:
+            n = npm.shape_of(st, inner)[0]
+        else:
+            npm.same_dim(st, npm.shape_of(st, inner)[0], n)
     if isinstance(val, ArrRef):
         # the table stores its own copy of the column
         shape, fn, kind = npm.info(st, val)
         val = PureArr(shape, fn, kind)
+    elif isinstance(val, Quantity) and isinstance(val.value, ArrRef):
+        shape, fn, kind = npm.info(st, val.value)
+        val = Quantity(PureArr(shape, fn, kind), val.unit)
     cols[key] = st.box(val)
     attrs = dict(cell.attrs)
     attrs['@cols'] = cols
+    attrs['@n'] = n
     attrs['columns'] = attrs['colnames'] = tuple(cols)
     attrs['dtype'] = st.alloc_obj('<dtype>', {'names': tuple(cols)})
     st.heap[t.addr] = ObjCell('<table>', attrs)
